@@ -216,3 +216,81 @@ def r_backward(c):
             return last
         del junk
     return last
+
+
+def check_mtl_effect(prog, c, agg, before, after, leaf_names):
+    losses, feats = c["losses"], c["features"]
+    tasks_params, shared = c["expected_tasks_params"], c["expected_shared"]
+    probs = []
+    for n in sorted({n for ps in tasks_params for n in ps}):
+        D = prog.total_jac(n)
+        exp = np.zeros(prog[n].numel())
+        for t, ps in enumerate(tasks_params):
+            if n in ps and losses[t] in D:
+                exp = exp + D[losses[t]][0]
+        b = before[n] if before[n] is not None else 0.0
+        if after[n] is None or not close(after[n], b + exp.reshape(tuple(prog[n].shape))):
+            probs.append(f"task parameter {n}: increment is not the sum of its tasks' gradients")
+    if len(agg.seen) != 1:
+        return probs + [f"aggregator called {len(agg.seen)} times"]
+    M = agg.seen[0]
+    v = agg.vs[0] if agg.vs and len(agg.vs[0]) == M.shape[1] else np.arange(1, M.shape[1] + 1, dtype=float) * 0.37
+    Dsh = {n: prog.total_jac(n) for n in shared}
+    Df = {f: prog.total_jac(f) for f in feats}
+    ok_any = False
+    for pi in itertools.permutations(shared):
+        rows = []
+        for t in range(len(losses)):
+            row = []
+            for n in pi:
+                acc = np.zeros(prog[n].numel())
+                for f in feats:
+                    if losses[t] in Df[f] and f in Dsh[n]:
+                        acc = acc + Df[f][losses[t]][0] @ Dsh[n][f]
+                row.append(acc)
+            rows.append(np.concatenate(row))
+        J = np.stack(rows)
+        if J.shape != M.shape or not close(M, J):
+            continue
+        off, ok = 0, True
+        for n in pi:
+            k = prog[n].numel()
+            inc = v[off:off + k].reshape(tuple(prog[n].shape))
+            off += k
+            b = before[n] if before[n] is not None else 0.0
+            if after[n] is None or not close(after[n], b + inc):
+                ok = False
+        ok_any = ok_any or ok
+    if not ok_any:
+        probs.append("shared parameters: (matrix seen by the aggregator, deposited slices) inconsistent with row i = d loss_i / d shared for every column order")
+    return probs
+
+
+@handler("autojac_mtl")
+def r_mtl(c):
+    from torchjd.autojac import mtl_backward
+    Agg = from_torchjd()
+    spec = c["spec"]
+    leaf_names = [l[0] for l in spec["leaves"]]
+    last = None
+    for attempt in range(6):
+        junk = [torch.zeros(3) for _ in range(attempt * 3)]
+        prog = RealProg(spec, c["jac"])
+        set_old(prog, c.get("old"))
+        before = grads(prog, leaf_names)
+        agg = Agg(c.get("v") or [])
+        kw = {}
+        if c.get("tasks_params") is not None:
+            kw["tasks_params"] = [[prog[n] for n in ps] for ps in c["tasks_params"]]
+        if c.get("shared_params") is not None:
+            kw["shared_params"] = [prog[n] for n in c["shared_params"]]
+        feats = [prog[f] for f in c["features"]]
+        mtl_backward([prog[n] for n in c["losses"]], feats if len(feats) > 1 else feats[0], agg, parallel_chunk_size=c.get("chunk"),
+                     retain_graph=bool(c.get("retain_graph", False)), **kw)
+        after = grads(prog, leaf_names)
+        probs = check_mtl_effect(prog, c, agg, before, after, leaf_names)
+        last = dict(reproduced=bool(probs), why=probs[:3], attempt=attempt)
+        if probs:
+            return last
+        del junk
+    return last
